@@ -81,6 +81,8 @@ class Rec:
         self.alive_end = {}   # p -> bool
         self.result = None
         self.end_marker = None
+        self.raised = {}      # (actor, step) -> the exception OBJECT thrown into the actor at that step
+        self.trig_exc = {}    # node -> the exception OBJECT the event failed with (first trigger)
 
 
 class Runner:
@@ -134,6 +136,8 @@ class Runner:
         v = ev._value
         out = None if v is None else self.enc(v[0] if v[1] is None else v[1])
         self.rec.trig.setdefault(i, []).append((self.now(), out, len(self.log), self.tick()))
+        if v is not None and v[1] is not None:
+            self.rec.trig_exc.setdefault(i, v[1])
         c = self.rec.cond.get(i)
         if c is not None and len(self.rec.trig[i]) == 1:
             c['leaf_ok'] = [l for l in c['leaves'] if self.nodes[l].ok]
@@ -222,6 +226,7 @@ class Runner:
                     val = yield tgt
                     self.emit(p, i, self.enc(val))
                 except (Interrupt, Fail) as e:
+                    rec.raised[(p, i)] = e
                     self.emit(p, i, self.enc(e))
                     if not a[2]:
                         rec.ends[p] = (self.now(), self.enc(e))
@@ -250,6 +255,7 @@ class Runner:
                     val = await self.nodes[a[1]]
                     self.emit(actor, i, self.enc(val))
                 except (Interrupt, Fail) as e:
+                    self.rec.raised[(actor, i)] = e
                     self.emit(actor, i, self.enc(e))
             elif k == 'set':
                 await self.flags[a[1]].set()
@@ -526,6 +532,11 @@ def monitor(g, log, rec):
                                'yet the waiter was not resumed and the failure ended the run'
                                % (i, trig_time[i], actor, step, y))
                 elif logged[(actor, step)] == trig_out[i]:
+                    # (by identity where both objects were seen: an actor thrown out of its wait by an Interrupt of its OWN
+                    # that merely looks like the event's failure - same class, same cause - has not handled that failure)
+                    thrown, failed_with = rec.raised.get((actor, step)), rec.trig_exc.get(i)
+                    if thrown is not None and failed_with is not None and thrown is not failed_with:
+                        continue
                     bad.append('event %d failed at %d and its exception was raised in actor %d (step %d) waiting '
                                'for it, yet the failure was escalated as unhandled' % (i, trig_time[i], actor, step))
         for c_id, c in rec.cond.items():
